@@ -555,6 +555,35 @@ def run_case(case, ctx):
                 with open(fn_sp, "wb") as f:
                     f.write(before_b)
         judge(".statepoint after init() on the same handle", d, lambda: hd.statepoint())
+        # the same through a handle opened by the job's state point (for directories still under their own id):
+        # init() may refuse, but what the handle reports afterwards still hashes to its id, and no retry of init()
+        # writes anything else into the directory
+        i_own = owner.get(d)
+        if i_own is not None and d == b.ids[i_own]:
+            try:
+                hs = signac.Project(b.root).open_job(json.loads(json.dumps(jobs[i_own])))
+            except Exception:
+                continue
+            before_b = _read(fn_sp)
+            for _attempt in range(2):
+                try:
+                    hs.init()
+                except Exception:
+                    pass
+                judge("statepoint() of a handle opened by state point, after init()", d, lambda: hs.statepoint())
+            after_b = _read(fn_sp)
+            if after_b != before_b:
+                c2 = classify(ws, d)
+                if c2["cls"] != "ok":
+                    mms.append(Mismatch(
+                        "open_accepts_wrong_statepoint",
+                        "init() through a handle opened by state point wrote %r into the state point file of job directory %s (%s), "
+                        "which is %s; %s" % (after_b, d[:8], table[d]["cls"], c2["cls"], what)))
+                if before_b is None:
+                    os.remove(fn_sp)
+                else:
+                    with open(fn_sp, "wb") as f:
+                        f.write(before_b)
     for route, get in (("iteration + job.statepoint()", lambda j: j.statepoint()), ("iteration + job.cached_statepoint", lambda j: dict(j.cached_statepoint))):
         p_it = signac.Project(b.root)
         try:
